@@ -104,6 +104,7 @@ fn parse_case(line: &str) -> Option<(String, &'static str)> {
         "elem=u32" => "u32",
         "elem=cell" => "cell",
         "elem=zst" => "zst",
+        "elem=unit" => "unit",
         _ => return None,
     };
     Some((t[1].to_string(), kind))
@@ -161,6 +162,7 @@ fn main() {
             pending = match kind {
                 "u32" => run_case::<u32>(&mut io),
                 "cell" => run_case::<E>(&mut io),
+                "unit" => run_case::<()>(&mut io),
                 _ => run_case::<Z>(&mut io),
             };
         } else {
